@@ -40,6 +40,11 @@ explicit).  Same family as T12/T13/T14/T19 (typed, closed expression table; `Uns
   `r["values"]`, `r["missing"]`; `[m or bool(n) for m, n in zip(a, b, strict=True)]`;
   `np.asarray(mask, dtype=bool)`; `a if c else None`; a call of an earlier translated function.
 
+Locals are typed by the table `FUNCS[…]["locals"]`; a local that is NOT in the table (a renamed or new
+one) gets the type of the expression first assigned to it (`None` is the value `PyVal.none`; for `[]`
+/ `{}` the element type is fixed by the first `.append(e)` / `d[k] = e`; a loop target by the
+iterable), so renaming locals does not break the translation.
+
 Anything else makes the translation of that function fail: the Gen file then carries a stub with the
 same signature and `translationOk := false`, which `GeffProps.C03Gen.translated` requires to be
 `true`.  A translation that succeeds but does not type-check, or that no longer equals the
@@ -124,6 +129,7 @@ class DFn(Fn):
     def __init__(self, spec, done, fdefs=None):
         super().__init__(spec)
         self.fdefs = fdefs or {}
+        self.resolved: dict[str, str] = {}
         self.reassigned = set(spec.get("reassigned", []))
         self.locals = dict(spec["locals"])
         self.locals.update(dict(spec["params"]))
@@ -139,7 +145,9 @@ class DFn(Fn):
     def const(self, n, want):
         v = n.value
         if v is None:
-            if want == "PyVal":
+            if want in (None, "PyVal"):
+                # Python's `None` is a value of the model (`PyVal.none`); where an `Option` is meant the
+                # expected type says so
                 return "PyVal.none", "PyVal"
             if want and want.startswith("Option "):
                 return "none", want
@@ -168,7 +176,12 @@ class DFn(Fn):
         if isinstance(n, ast.Name):
             if n.id not in self.env:
                 raise Unsupported(f"unknown variable {n.id}")
-            return camel(n.id), self.env[n.id]
+            t = self.env[n.id]
+            if "?" in t:
+                if "?" in self.locals.get(n.id, "?"):
+                    raise Unsupported(f"variable {n.id} is read before its element type is known")
+                t = self.env[n.id] = self.locals[n.id]
+            return camel(n.id), t
         if isinstance(n, (ast.List, ast.Dict)) and not (n.elts if isinstance(n, ast.List) else n.keys):
             if want is None or not want.startswith("List "):
                 raise Unsupported("empty list / dict of unknown type")
@@ -234,8 +247,15 @@ class DFn(Fn):
         if isinstance(n, ast.IfExp):
             c, tc = self.expr(n.test, binds)
             sub: list[str] = []
-            a, ta = self.expr(n.body, sub, want)
-            b, tb = self.expr(n.orelse, sub, want)
+            if want is None and isinstance(n.orelse, ast.Constant) and n.orelse.value is None:
+                a, ta = self.expr(n.body, sub)
+                b, tb = "none", (f"Option ({ta})" if " " in ta else f"Option {ta}")
+            elif want is None and isinstance(n.body, ast.Constant) and n.body.value is None:
+                b, tb = self.expr(n.orelse, sub)
+                a, ta = "none", (f"Option ({tb})" if " " in tb else f"Option {tb}")
+            else:
+                a, ta = self.expr(n.body, sub, want)
+                b, tb = self.expr(n.orelse, sub, want)
             if sub:
                 raise Unsupported("raising operation inside a conditional expression")
             if tc != "Bool":
@@ -399,12 +419,28 @@ class DFn(Fn):
     # ------------------------------------------------------------ statements
     def assign(self, name, value, out, ind):
         want = self.locals.get(name)
-        if want is None:
-            raise Unsupported(f"variable {name} is not in the typing table")
         if name in self.params and name not in self.reassigned:
             raise Unsupported(f"parameter {name} is reassigned")
         binds: list[str] = []
-        e, t = self.expr(value, binds, want=want)
+        if want is None:
+            # a local that is not in the typing table (e.g. a renamed one): its type is the type of the
+            # expression first assigned to it; for `[]` / `{}` the element type is fixed by the first
+            # `.append(e)` / `d[k] = e` (the declaration carries a token that is replaced at the end)
+            if isinstance(value, (ast.List, ast.Dict)) and not (value.elts if isinstance(value, ast.List) else value.keys):
+                if name in self.env:
+                    raise Unsupported(f"variable {name} is re-initialised before its element type is known")
+                kind = "List ?" if isinstance(value, ast.List) else "Dict ?"
+                self.env[name] = self.locals[name] = kind
+                out.append(ind + f"let mut {camel(name)} : {self.token(name)} := []")
+                return
+            e, t = self.expr(value, binds)
+            if "?" in t or not t:
+                raise Unsupported(f"variable {name} is not in the typing table and its type cannot be inferred")
+            want = self.locals[name] = t
+        elif "?" in want:
+            raise Unsupported(f"variable {name} is assigned before its element type is known")
+        else:
+            e, t = self.expr(value, binds, want=want)
         if want == f"Option {t}" or want == f"Option ({t})":
             e, t = f"some {e}", want
         if t != want:
@@ -413,6 +449,13 @@ class DFn(Fn):
         first = name not in self.env
         self.env[name] = want
         out.append(ind + (f"let mut {camel(name)} : {want} := {e}" if first else f"{camel(name)} := {e}"))
+
+    def token(self, name):
+        return f"«TYPE-OF-{name}»"
+
+    def resolve(self, name, ty):
+        self.env[name] = self.locals[name] = ty
+        self.resolved[self.token(name)] = ty
 
     @staticmethod
     def assigned_names(stmts):
@@ -469,7 +512,7 @@ class DFn(Fn):
             elif v in self.top_assigned(s.body) and v in self.top_assigned(h.body):
                 live.append(v)
         for v in live:
-            if v in self.params or v not in self.locals:
+            if v in self.params:
                 raise Unsupported(f"try assigns {v}")
         env0 = dict(self.env)
         tup = "(" + ", ".join(camel(v) for v in live) + ")" if len(live) != 1 else camel(live[0])
@@ -492,6 +535,12 @@ class DFn(Fn):
     def closed(self, stmts, live, env0, i2):
         """a block as its own `do` term that returns the locals `live`"""
         self.env = dict(env0)
+        for v in live:
+            if v in env0 and "?" in env0[v]:
+                if "?" in self.locals.get(v, "?"):
+                    raise Unsupported(f"{v} is assigned in a nested block before its element type is known")
+                env0[v] = self.locals[v]
+        self.env = dict(env0)
         lines = [i2 + f"let mut {camel(v)} : {env0[v]} := {camel(v)}" for v in live if v in env0]
         for st in stmts:
             self.stmt(st, lines, i2)
@@ -508,6 +557,8 @@ class DFn(Fn):
             if v in env0:
                 out.append(ind + f"{camel(v)} := {p}")
             else:
+                if "?" in self.locals.get(v, "?"):
+                    raise Unsupported(f"type of {v} is not known after the statement")
                 self.env[v] = self.locals[v]
                 out.append(ind + f"let mut {camel(v)} : {self.locals[v]} := {p}")
 
@@ -562,11 +613,16 @@ class DFn(Fn):
             if isinstance(t, ast.Subscript) and isinstance(t.value, ast.Name) and not isinstance(t.slice, ast.Slice):
                 d = t.value.id
                 td = self.env.get(d, "")
-                if d in self.params or not td.startswith("List (String × "):
-                    raise Unsupported(f"item assignment {ast.unparse(t)}")
+                if "?" in td and "?" not in self.locals.get(d, "?"):
+                    td = self.env[d] = self.locals[d]
                 binds: list[str] = []
                 k, tk = self.expr(t.slice, binds)
                 e, te = self.expr(s.value, binds)
+                if td == "Dict ?" and tk == "String" and "?" not in te:
+                    td = f"List (String × {te})"
+                    self.resolve(d, td)
+                if d in self.params or not td.startswith("List (String × "):
+                    raise Unsupported(f"item assignment {ast.unparse(t)}")
                 if tk != "String" or te != td[len("List (String × "):-1]:
                     raise Unsupported(f"item assignment {ast.unparse(t)}: {tk} -> {te}")
                 out.extend(ind + b for b in binds)
@@ -582,9 +638,20 @@ class DFn(Fn):
                     and len(c.args) == 1 and not c.keywords):
                 name = c.func.value.id
                 ty = self.env.get(name, "")
+                if "?" in ty and "?" not in self.locals.get(name, "?"):
+                    ty = self.env[name] = self.locals[name]
+                binds = []
+                if ty == "List ?":
+                    e, t = self.expr(c.args[0], binds)
+                    if "?" in t:
+                        raise Unsupported(f"append of an expression of unknown type to {name}")
+                    ty = f"List ({t})" if " " in t else f"List {t}"
+                    self.resolve(name, ty)
+                    out.extend(ind + b for b in binds)
+                    out.append(ind + f"{camel(name)} := {camel(name)} ++ [{e}]")
+                    return
                 if not ty.startswith("List ") or name in self.params:
                     raise Unsupported(f"append on {name} : {ty}")
-                binds = []
                 e, t = self.expr(c.args[0], binds, want=_elt(ty))
                 if _elt(ty) != t:
                     raise Unsupported(f"append of {t} to {ty}")
@@ -621,7 +688,7 @@ class DFn(Fn):
                     raise Unsupported("return / continue inside a conditional that first assigns a variable")
                 live = [v for v in self.assigned_names(s.body + s.orelse) if v in self.env or v in new]
                 for v in live:
-                    if (v in self.params and v not in self.reassigned) or v not in self.locals:
+                    if v in self.params and v not in self.reassigned:
                         raise Unsupported(f"conditional assigns {v}")
                 env0 = dict(self.env)
                 r = "r" + self.fresh()[1:]
@@ -656,14 +723,14 @@ class DFn(Fn):
             before = dict(self.env)
             if isinstance(tgt, ast.Name):
                 name = tgt.id
-                if self.locals.get(name) != elt or name in self.env:
+                if self.locals.setdefault(name, elt) != elt or name in self.env:
                     raise Unsupported(f"loop variable {name}: {elt}")
                 self.env[name] = elt
                 out.append(ind + f"for {camel(name)} in {e} do")
             elif (isinstance(tgt, ast.Tuple) and len(tgt.elts) == 2 and all(isinstance(x, ast.Name) for x in tgt.elts)
                   and tgt.elts[0].id == "_" and elt == "ι × Attrs"):
                 name = tgt.elts[1].id
-                if self.locals.get(name) != "Attrs" or name in self.env:
+                if self.locals.setdefault(name, "Attrs") != "Attrs" or name in self.env:
                     raise Unsupported(f"loop variable {name}")
                 it = "it" + self.fresh()[1:]
                 self.env[name] = "Attrs"
@@ -707,7 +774,12 @@ def translate_function(fn: ast.FunctionDef, spec, done, fdefs) -> str:
         raise Unsupported("the function does not end with a return")
     params = spec.get("extra", "") + " ".join(f"({camel(p)} : {t})" for p, t in spec["params"])
     head = f"def {spec['lean']} {spec['tparams']}{params} : Except Err ({spec['ret']}) := do"
-    return "\n".join([head, *body])
+    text = "\n".join([head, *body])
+    for tok, ty in tr.resolved.items():
+        text = text.replace(tok, ty)
+    if "«TYPE-OF-" in text:
+        raise Unsupported("a local initialised with [] / {} whose element type is never fixed")
+    return text
 
 
 def stub(spec) -> str:
